@@ -182,14 +182,13 @@ DeltasOf(d, k) ==
 
 Extend(ds) == UNION { UNION { DeltasOf(d, k) : k \in { kk \in ModKeys : ~IsSet(d, kk) } } : d \in ds }
 
+(* deltas that set exactly 0, 1, 2, 3 parameters; constant definitions are  *)
+(* evaluated once by TLC, the guards keep unused levels empty               *)
 Deltas0 == {NoDelta}
-Deltas1 == Extend(Deltas0)
-Deltas2 == Extend(Deltas1)
-Deltas3 == Extend(Deltas2)
-DeltaSpace ==
-    Deltas0 \cup (IF MaxDelta >= 1 THEN Deltas1 ELSE {})
-            \cup (IF MaxDelta >= 2 THEN Deltas2 ELSE {})
-            \cup (IF MaxDelta >= 3 THEN Deltas3 ELSE {})
+Deltas1 == IF MaxDelta >= 1 THEN Extend(Deltas0) ELSE {}
+Deltas2 == IF MaxDelta >= 2 THEN Extend(Deltas1) ELSE {}
+Deltas3 == IF MaxDelta >= 3 THEN Extend(Deltas2) ELSE {}
+DeltaSpace == Deltas0 \cup Deltas1 \cup Deltas2 \cup Deltas3
 
 ---------------------------------------------------------------------------
 (* (1) DECLARATIVE LAYER                                                   *)
@@ -270,6 +269,7 @@ Merge(n, d) ==
         pick(k, dv, nv) == IF k \in sk THEN dv ELSE nv
         amb == \/ newEdges /\ (gk \ {"method"} # {} \/ ("method" \in sk /\ d.method # "custom"))
                \/ wasCustom /\ ~newEdges /\ ~keep /\ ~switch /\ d.edges = NSQ
+               \/ wasCustom /\ d.edges = <<>>                  \* modify(edges=None) of custom bins
     IN [amb |-> amb,
         p |-> [rmin |-> pick("rmin", d.rmin, n.rmin), rmax |-> pick("rmax", d.rmax, n.rmax),
                unit |-> pick("unit", d.unit, n.unit), rw |-> pick("rw", d.rw, n.rw),
@@ -286,7 +286,9 @@ Merge(n, d) ==
                workers |-> pick("workers", d.workers, n.workers)]]
 
 MergeVerdict(n, d) == LET m == Merge(n, d) IN
-    IF Verdict(m.p) = "reject" THEN "reject" ELSE IF m.amb THEN "open" ELSE Verdict(m.p)
+    IF m.amb        \* only the parts of the merge that are unambiguous can demand a rejection
+    THEN (IF "reject" \in {CosmoVerdict(m.p), ScalesVerdict(m.p)} THEN "reject" ELSE "open")
+    ELSE Verdict(m.p)
 
 (* unit -> distance measure and divisor of get_angle_radian *)
 AngleSpec(o) ==
@@ -613,8 +615,9 @@ Finish ==
 
 Done == pc = "dead" \/ (pc = "idle" /\ Len(mods) = MaxMods)
 
-SomeCreate == \E p \in ParamSpace : BeginCreate(p)
-SomeModify == \E d \in DeltaSpace : BeginModify(d)
+(* guards first: TLC must not enumerate the parameter space in every state *)
+SomeCreate == pc = "start" /\ \E p \in ParamSpace : BeginCreate(p)
+SomeModify == pc = "idle" /\ Len(mods) < MaxMods /\ \E d \in DeltaSpace : BeginModify(d)
 
 Next == \/ SomeCreate \/ CreateParseCosmology \/ CreateScales \/ CreateBinning \/ CreateConstruct
         \/ SomeModify \/ ModifyScales \/ ModifyBinning \/ ModifyCosmology \/ ModifyConstruct
